@@ -21,12 +21,14 @@ fn models(tier: Tier) -> Vec<Model> {
             v.extend(gen::m1(0).into_iter().step_by(61));
             v.extend(gen::m3(0).into_iter().step_by(211));
             v.extend(gen::m4(0).into_iter().step_by(97));
+            v.extend(gen::m5(0).into_iter().step_by(53));
         }
         Tier::Thorough => {
             v.extend(gen::m1(1).into_iter().step_by(53));
             v.extend(gen::m2(1).into_iter().step_by(4001));
             v.extend(gen::m3(1).into_iter().step_by(101));
             v.extend(gen::m4(1).into_iter().step_by(43));
+            v.extend(gen::m5(1).into_iter().step_by(17));
         }
     }
     // models whose only purpose is domain shapes: no constraint at all over awkward domains
